@@ -282,7 +282,10 @@ class CallStack(deque):
         while self.refstack:
             if self.refstack[-1][0] == self.counter:
                 _, ref = self.refstack.pop()
-                cells.model.refgraph.add_edge(ref, node)
+                if cells.is_cached:
+                    cells.model.refgraph.add_edge(ref, node)
+                else:
+                    cells.model.refgraph.add_edge(ref, (cells,))
             else:
                 break
 
